@@ -155,6 +155,8 @@ def gen_filter(rng, model):
         v = present if present is not None else "zzz-no-such-value"
         if op == "in":
             v = [v] + ([rng.choice(pool)] if pool else []) + ["other"]
+            if rng.random() < 0.3 and all(isinstance(x, str) and "_" not in x for x in v):
+                v = rng.choice([",", " ", ""]).join(v[:2])          # a string: substring semantics; no shortcut can be derived from it
         if prop == "type" and isinstance(v, str) and "_" in v:
             v = "identity"
         return (prop, op, v)
@@ -176,7 +178,12 @@ def gen_filter(rng, model):
         text = tsor.format_us(us, "any") if spell == "any" else tsor.format_us(us, "millisecond", "min") if spell == "ms" else \
             (tsor.format_us(us, "any")[:-1] + ("0Z" if "." in tsor.format_us(us, "any") and len(tsor.format_us(us, "any").split(".")[1]) < 7 else "Z"))
         if op == "in":
-            return (prop, op, [text, tsor.format_us(us + 5, "any")])
+            lst = [text, tsor.format_us(us + 5, "any")]
+            if rng.random() < 0.4:
+                # datetimes (also naive = UTC) among the listed values
+                naive = dt.datetime(1, 1, 1) + dt.timedelta(microseconds=us)
+                lst = [rng.choice([naive, naive.replace(tzinfo=dt.timezone.utc).astimezone(dt.timezone(dt.timedelta(minutes=90)))]), lst[1]]
+            return (prop, op, lst)
         if rng.random() < 0.35:
             naive = dt.datetime(1, 1, 1) + dt.timedelta(microseconds=us)
             if rng.random() < 0.25:
@@ -194,6 +201,9 @@ def gen_filter(rng, model):
     v = present if present is not None else "zzz"
     if op == "in":
         v = [v, "other"]
+    if rng.random() < 0.15:
+        # a path that goes on below a value without properties: holds for nothing
+        return (rng.choice(["labels.foo", "name.first", "created.year", "type.x"]), rng.choice(["=", "in"]), v if op == "in" else [v] if False else (v if not isinstance(v, list) else v))
     return (prop, op, v)
 
 
@@ -203,7 +213,8 @@ def to_lib(f):
 
 
 def fdesc(f):
-    return [f[0], f[1], f[2] if not isinstance(f[2], (dt.datetime,)) else "datetime:" + f[2].isoformat()]
+    show = lambda x: "datetime:" + x.isoformat() if isinstance(x, dt.datetime) else x     # noqa: E731
+    return [f[0], f[1], [show(x) for x in f[2]] if isinstance(f[2], (list, tuple)) else show(f[2])]
 
 
 def run_routes(ctx, stores, filters, exp_keys, case, tag):
@@ -357,7 +368,7 @@ def wl_random(ctx, rng, i):
                     run_routes(ctx, stores[:1] if q % 2 else stores[1:], [f], {key(j) for j in p}, case, "part")
             for f in filters:
                 ctx.see("operators", f[1])
-                ctx.see("property kinds", next(k for k, ps in PROPS.items() if f[0] in ps))
+                ctx.see("property kinds", next((k for k, ps in PROPS.items() if f[0] in ps), "path-below-a-leaf"))
             ctx.count("filter_sets")
         if ctx.want_sample():
             ctx.sample({"population": case, "example_filters": [fdesc(f) for f in filters], "expected_matches": len(exp_keys)})
@@ -403,6 +414,8 @@ def alphabet(ids):
         ("id", "in", [i1, i2]), ("id", "in", [i1, mw]), ("id", "in", [absent_id]), ("id", "in", [i2, absent_type_id]),
         ("id", "=", ids["marking-definition"][0]), ("id", "in", [ids["domain-name"][0], i1]), ("id", "!=", ids["domain-name"][0]),
         ("name", "=", "n1"),
+        # 'in' with a string value: a substring test, from which no shortcut can be derived
+        ("type", "in", "identity,malware"), ("id", "in", i1), ("id", "in", i1 + " " + mw),
     ]
     return A
 
@@ -453,7 +466,7 @@ def wl_alphabet(ctx, rng, i):
 
 
 def alphabet_size(tier):
-    n = 24
+    n = 27
     return n + n * (n - 1) // 2 + (n * (n - 1) * (n - 2) // 6 if tier == "thorough" else 0)
 
 
